@@ -124,6 +124,9 @@ func proofOK(keysDoc *didtypes.DIDDocument, vmID string, sig []byte, content *di
 func didExpect(m *didModel, msg sdk.Msg, strictID bool) (bool, string) {
 	switch x := msg.(type) {
 	case *didtypes.MsgCreateDIDRequest:
+		if !refDID(x.Did) {
+			return false, "did-syntax"
+		}
 		if e, ok := m.Entries[x.Did]; ok {
 			if e.Tomb {
 				return false, "tombstoned"
@@ -477,6 +480,12 @@ func didOps(e *didEnv, v didVariant) []explore.Op {
 			return tx(R2, &didtypes.MsgUpdateDIDRequest{Did: d1, Document: doc, VerificationMethodId: nested(d1, d2), Signature: e.sign(doc, seqOf(m, d1), 1), FromAddress: R2.Bech})
 		}},
 	)
+	// the pre-v2 spelling with a network segment (did:panacea:mainnet:<id>) is not a DID of this chain
+	ops = append(ops, explore.Op{Name: "Create(did:panacea:mainnet:<id of d1>,D1(same),k1,via=R1)", Tx: func(w *world.World, m any) *world.TxSpec {
+		legacy := "did:panacea:mainnet:" + strings.TrimPrefix(d1, "did:panacea:")
+		doc := e.doc("D1", legacy)
+		return tx(R1, &didtypes.MsgCreateDIDRequest{Did: legacy, Document: doc, VerificationMethodId: e.vmID(legacy, 1), Signature: e.sign(doc, 0, 1), FromAddress: R1.Bech})
+	}})
 	if v.Prefix {
 		// two valid DIDs one of which is a strict byte-prefix of the other (ids of 43 and 44 characters)
 		dp, dpm := e.Prefix[0], e.Prefix[1]
